@@ -115,6 +115,7 @@ pub fn check_case(p: &Prog, model_line: &str, report: &mut Report, _prop: &str) 
         }
         if real_s != model_s && tie_ok {
             tie_ok = false;
+            directed_search(p, report);
             // a disagreement inside a known finding's predicate is part of that finding, not a new one
             {
                 report.mismatch(json!({
@@ -193,6 +194,207 @@ pub fn check_case(p: &Prog, model_line: &str, report: &mut Report, _prop: &str) 
     res
 }
 
+/// implementation-side oracle alone (no model): `Some(failure)` when a probe reached in the VM has a runtime type
+/// that the analyzer's inferred type excludes
+pub fn oracle_only(p: &Prog) -> Option<serde_json::Value> {
+    crate::interp::run(p, 2_000)?; // terminating programs only
+    let r = p.render();
+    let real_types = vh_common::catch(std::panic::AssertUnwindSafe(|| real::infer_probes(&r.lua))).ok()?;
+    let vm = real::run_vm(&r.lua).ok()?;
+    for (id, rt) in &vm {
+        let t = real_types.iter().find(|t| t.id == *id)?;
+        let atoms = t.atoms.as_ref().ok()?;
+        if !includes(atoms, rt) {
+            return Some(json!({
+                "input": {"tokens": r.tokens, "lua": r.lua},
+                "class": classify(p),
+                "what": format!("probe {id} reached with a value of type {rt}, inferred type {} does not include it", atoms.join("|")),
+            }));
+        }
+    }
+    None
+}
+
+fn map_blocks(b: &[crate::prog::Stmt], f: &mut dyn FnMut(Vec<crate::prog::Stmt>) -> Vec<crate::prog::Stmt>) -> Vec<crate::prog::Stmt> {
+    use crate::prog::Stmt;
+    let inner: Vec<Stmt> = b
+        .iter()
+        .map(|s| match s {
+            Stmt::If(c, t, ei, e) => Stmt::If(
+                c.clone(),
+                map_blocks(t, f),
+                ei.iter().map(|(c, x)| (c.clone(), map_blocks(x, f))).collect(),
+                e.as_ref().map(|x| map_blocks(x, f)),
+            ),
+            Stmt::While(c, x) => Stmt::While(c.clone(), map_blocks(x, f)),
+            Stmt::WhileTrue(x) => Stmt::WhileTrue(map_blocks(x, f)),
+            Stmt::Repeat(x, c) => Stmt::Repeat(map_blocks(x, f), c.clone()),
+            Stmt::ForNum(a, z, x) => Stmt::ForNum(*a, *z, map_blocks(x, f)),
+            Stmt::ForIn(n, x) => Stmt::ForIn(*n, map_blocks(x, f)),
+            other => other.clone(),
+        })
+        .collect();
+    f(inner)
+}
+
+/// Variants of a program on which model and implementation disagree: a probe of every variable at the start and
+/// end of every block; every literal (initial values and assigned literals) replaced in turn by each of
+/// nil/false/true/1/"s1"/{} so that both sides of every guard get executed; then/else bodies swapped.
+pub fn variants(p: &Prog, cap: usize) -> Vec<Prog> {
+    use crate::prog::{Lit, Stmt};
+    let nv = p.decls.len();
+    // (1) probes in every arm
+    let mut probed = p.clone();
+    probed.body = map_blocks(&p.body, &mut |mut b: Vec<Stmt>| {
+        let mut out: Vec<Stmt> = (0..nv).map(Stmt::Probe).collect();
+        out.append(&mut b);
+        out.extend((0..nv).map(Stmt::Probe));
+        out
+    });
+    let lits = [Lit::Nil, Lit::Bool(false), Lit::Bool(true), Lit::Int(1), Lit::Str(1), Lit::Tbl];
+    let mut out = vec![probed.clone()];
+    // (2) initial values
+    for i in 0..nv {
+        for l in &lits {
+            let mut q = probed.clone();
+            q.decls[i] = Some(l.clone());
+            out.push(q);
+        }
+    }
+    // (3) assigned literals, one site at a time
+    fn count_assigns(b: &[Stmt]) -> usize {
+        b.iter()
+            .map(|s| match s {
+                Stmt::Assign(..) => 1,
+                Stmt::If(_, t, ei, e) => {
+                    count_assigns(t) + ei.iter().map(|(_, x)| count_assigns(x)).sum::<usize>() + e.as_ref().map_or(0, |x| count_assigns(x))
+                }
+                Stmt::While(_, x) | Stmt::WhileTrue(x) | Stmt::Repeat(x, _) | Stmt::ForNum(_, _, x) | Stmt::ForIn(_, x) => count_assigns(x),
+                _ => 0,
+            })
+            .sum()
+    }
+    fn set_assign(b: &mut [Stmt], k: &mut usize, target: usize, l: &Lit) {
+        for s in b {
+            match s {
+                Stmt::Assign(_, lit) => {
+                    if *k == target {
+                        *lit = l.clone();
+                    }
+                    *k += 1;
+                }
+                Stmt::If(_, t, ei, e) => {
+                    set_assign(t, k, target, l);
+                    for (_, x) in ei {
+                        set_assign(x, k, target, l);
+                    }
+                    if let Some(x) = e {
+                        set_assign(x, k, target, l);
+                    }
+                }
+                Stmt::While(_, x) | Stmt::WhileTrue(x) | Stmt::Repeat(x, _) | Stmt::ForNum(_, _, x) | Stmt::ForIn(_, x) => {
+                    set_assign(x, k, target, l)
+                }
+                _ => {}
+            }
+        }
+    }
+    let n_assign = count_assigns(&probed.body);
+    for site in 0..n_assign {
+        for l in &lits {
+            let mut q = probed.clone();
+            let mut k = 0;
+            set_assign(&mut q.body, &mut k, site, l);
+            out.push(q);
+        }
+    }
+    // (4) then/else swapped, one `if` at a time (an absent else becomes an empty then)
+    fn count_ifs(b: &[Stmt]) -> usize {
+        b.iter()
+            .map(|s| match s {
+                Stmt::If(_, t, ei, e) => 1 + count_ifs(t) + ei.iter().map(|(_, x)| count_ifs(x)).sum::<usize>() + e.as_ref().map_or(0, |x| count_ifs(x)),
+                Stmt::While(_, x) | Stmt::WhileTrue(x) | Stmt::Repeat(x, _) | Stmt::ForNum(_, _, x) | Stmt::ForIn(_, x) => count_ifs(x),
+                _ => 0,
+            })
+            .sum()
+    }
+    fn swap_if(b: &mut [Stmt], k: &mut usize, target: usize) {
+        for s in b {
+            match s {
+                Stmt::If(_, t, ei, e) => {
+                    if *k == target && ei.is_empty() {
+                        let old_then = std::mem::take(t);
+                        *t = e.take().unwrap_or_default();
+                        *e = Some(old_then);
+                    }
+                    *k += 1;
+                    swap_if(t, k, target);
+                    for (_, x) in ei {
+                        swap_if(x, k, target);
+                    }
+                    if let Some(x) = e {
+                        swap_if(x, k, target);
+                    }
+                }
+                Stmt::While(_, x) | Stmt::WhileTrue(x) | Stmt::Repeat(x, _) | Stmt::ForNum(_, _, x) | Stmt::ForIn(_, x) => swap_if(x, k, target),
+                _ => {}
+            }
+        }
+    }
+    for site in 0..count_ifs(&probed.body) {
+        let mut q = probed.clone();
+        let mut k = 0;
+        swap_if(&mut q.body, &mut k, site);
+        out.push(q);
+    }
+    // (5) pairs: an initial value together with an assigned literal (small programs only)
+    if nv * n_assign <= 12 {
+        for i in 0..nv {
+            for l1 in &lits {
+                for site in 0..n_assign {
+                    for l2 in &lits {
+                        let mut q = probed.clone();
+                        q.decls[i] = Some(l1.clone());
+                        let mut k = 0;
+                        set_assign(&mut q.body, &mut k, site, l2);
+                        out.push(q);
+                    }
+                }
+            }
+        }
+    }
+    out.truncate(cap);
+    out
+}
+
+/// Directed search after a correspondence mismatch: run the implementation-side oracle on the variants of the
+/// mismatching program and report the first one that violates the property.
+pub fn directed_search(p: &Prog, report: &mut Report) {
+    if report.distribution.get("directed_searches").copied().unwrap_or(0) >= 8 {
+        return;
+    }
+    report.count("directed_searches");
+    let vs = variants(p, 1500);
+    report.add("directed_search_variants", vs.len() as u64);
+    for q in &vs {
+        if let Some(mut f) = oracle_only(q) {
+            f["found_by"] = json!("directed search over variants of a program on which model and implementation disagree");
+            f["mismatching_program"] = json!(p.render().lua);
+            let key = format!("oracle_fail_class_{}", f["class"].as_str().unwrap_or("none"));
+            report.count(&key);
+            report.count("directed_search_found_failing_input");
+            if f["class"].is_null() {
+                report.oracle_failures.insert(0, f);
+                report.oracle_failures.truncate(50);
+                report.count("oracle_failures_total");
+            } else {
+                report.oracle_failure(f);
+            }
+            return;
+        }
+    }
+}
+
 pub fn run_batch(progs: &[Prog], report: &mut Report, seen: &mut HashSet<String>, prop: &str) {
     let reqs: Vec<String> = progs
         .iter()
@@ -205,6 +407,9 @@ pub fn run_batch(progs: &[Prog], report: &mut Report, seen: &mut HashSet<String>
         let key = p.render().tokens;
         if r.nontrivial && seen.insert(key) {
             report.distinct_nontrivial += 1;
+        }
+        if p.render().tokens.contains(",V,") {
+            report.count("programs_with_variable_assignment");
         }
         for k in p.guard_kinds() {
             report.count(&format!("programs_with_guard_{k}"));
@@ -226,6 +431,9 @@ pub fn corpus() -> Vec<&'static str> {
         "1,I1,{,A,0,S1,I,t,0,number,number,0,{,P,0,0,},n,}",
         // x == literal / x ~= literal, stored type() on a variable that is never assigned
         "2,I1,S2,{,A,0,I2,I,q,0,I2,0,{,P,0,0,},e,{,P,1,0,},I,q,0,S1,1,{,P,2,0,},n,I,t,1,string,string,0,{,P,3,1,},e,{,P,4,1,},}",
+        // fixed findings through `x = y`: unknown|nil source then `x = false` (80b555b); union over union (5dcb194)
+        "2,N,N,{,I,v,1,{,},n,V,0,1,A,0,F,P,0,0,}",
+        "3,T,N,S1,{,I,v,0,{,A,1,I1,},n,I,v,0,{,A,2,N,},n,V,2,1,P,0,2,}",
         // direct guards
         "1,N,{,A,0,I1,P,0,0,I,v,0,{,P,1,0,},e,{,P,2,0,},}",
         "1,S1,{,I,y,0,string,0,{,P,0,0,},e,{,P,1,0,},A,0,N,I,z,0,0,{,P,2,0,},e,{,P,3,0,},P,4,0,}",
